@@ -80,7 +80,17 @@ func Go(h *Host, f func()) {
 
 type Rand struct{ s uint64 }
 
-func NewRand(seed uint64) *Rand { return &Rand{s: seed*0x9e3779b97f4a7c15 + 0x1234567} }
+// NewRand: SplitMix64. The generator's state is a counter, so the seed is passed through the
+// output mixer first: with the counter started at a multiple of the seed, the streams of seeds
+// s and s+d were the same sequence shifted by d draws, and plans generated from neighbouring
+// seeds shared long identical stretches (found when five of 150 plans of one scenario had the
+// same peers).
+func NewRand(seed uint64) *Rand {
+	z := seed + 0x9e3779b97f4a7c15
+	z = (z ^ (z >> 30)) * 0xbf58476d1ce4e5b9
+	z = (z ^ (z >> 27)) * 0x94d049bb133111eb
+	return &Rand{s: z ^ (z >> 31)}
+}
 
 func (r *Rand) Uint64() uint64 {
 	r.s += 0x9e3779b97f4a7c15
